@@ -27,7 +27,7 @@ pub fn info() -> PropInfo {
         id: "C16",
         run,
         replay,
-        rule: "cases = (input, switch combination c, source kind). The input is read once with the neutral combination (only allow_unmatched_ends) and once with c; the neutral records are turned into tokens and the documented transformation must produce exactly the second stream, positions included. Enumerated: all strings up to length N over the 13 markup bytes x all 128 combinations, token sequences, corpus x 128; generated: proptest soups. Non-trivial = the transformation changed, dropped or added at least one record (the two streams differ).",
+        rule: "cases = (input, switch combination c, source kind). The input is read once with the neutral combination (only allow_unmatched_ends) and once with c; the neutral records are turned into tokens and the documented transformation must produce exactly the second stream, positions included. Enumerated: all strings up to length N over the 13 markup bytes x all 128 combinations, token sequences, corpus x 128; generated: proptest soups. Non-trivial = the transformation changed, dropped or added at least one record (the two streams differ). Further stages change the trimming / comment-checking / end-name-trimming switches after k read calls: from there on the reader must behave exactly like a fresh reader with the new values on the rest of the input (positions shifted) - the switches are read at every call and nothing of an earlier setting may linger. Two further enumerations vary SIZE and OFFSET: fourteen construct kinds (text, long name, quoted value with '>', many attributes, blanks inside tags, comment / CDATA / PI bodies with near-terminators, DOCTYPE with nested brackets, blank runs around text, reference runs, declaration, deep nesting) with an inner length 0..=70 placed after a prefix of 0..=130 bytes, and large inputs whose variable part is 255..70 001 bytes long (block-wise scanners, buffer growth, positions beyond 255 / 65 535, default BufReader capacity).",
         assumptions: &[
             "the neutral stream itself is checked by C01/C08; here it is taken as given",
             "an end tag reported as mismatched may or may not pop the open-element stack (both accepted)",
@@ -187,6 +187,31 @@ fn run(ctx: &Ctx) {
     ctx.run_indexed("corpus-x-all-configs", corpus.len() as u64 * 128, |i| Some(Case { input: B(corpus[(i / 128) as usize].1.clone()), cfg: (i % 128) as u8, source: ((i / 128) % 2) as u8 }), check);
     let strat = (gen::soup_strategy(16), 0u8..128, 0u8..3).prop_map(|(input, cfg, source)| Case { input: B(input), cfg, source });
     ctx.run_proptest("soup", ctx.tier.pick(1_000_000, 8_000_000), strat, check);
+    // switches flipped in the middle of the document == restart with the new switches
+    let nf = ctx.tier.pick(5, 6);
+    let fcount = gen::exh_count(gen::SIGMA3.len() as u64, nf);
+    ctx.run_indexed(
+        "exh-bytes-alphabet3-x-flip-mid-stream",
+        fcount * 6,
+        |i| {
+            let mut r = SplitMix64::derive(seed, "c16-flip3", i);
+            Some(FlipCase { input: B(gen::exh_bytes(gen::SIGMA3, i / 6)), c1: r.next() as u8, c2: r.next() as u8, k: 1 + (i % 3) as u8, buffered: (i / 3) % 2 == 1 })
+        },
+        check_flip,
+    );
+    let nf1 = ctx.tier.pick(5, 6);
+    let fcount1 = gen::exh_count(13, nf1);
+    ctx.run_indexed(
+        "exh-bytes-x-flip-mid-stream",
+        fcount1 * 2,
+        |i| {
+            let mut r = SplitMix64::derive(seed, "c16-flip1", i);
+            Some(FlipCase { input: B(gen::exh_bytes(gen::SIGMA1, i / 2)), c1: r.next() as u8, c2: r.next() as u8, k: 1 + r.below(3) as u8, buffered: i % 2 == 1 })
+        },
+        check_flip,
+    );
+    let fstrat = (gen::soup_strategy(16), any::<u8>(), any::<u8>(), 1u8..12, any::<bool>()).prop_map(|(input, c1, c2, k, buffered)| FlipCase { input: B(input), c1, c2, k, buffered });
+    ctx.run_proptest("soup-x-flip-mid-stream", ctx.tier.pick(600_000, 5_000_000), fstrat, check_flip);
     // offset and length sweep, large inputs (see gen.rs) x four rotated combinations x three sources
     let (pmax, qmax, vars) = ctx.tier.pick((130u64, 70u64, 1u64), (260, 140, 2));
     ctx.run_indexed(
@@ -209,7 +234,100 @@ fn run(ctx: &Ctx) {
     );
 }
 
+/// Switches changed in the middle of a document: after `k` read calls the trimming / comment
+/// checking / end-name trimming switches are set to other values. The options are read at every
+/// call, so from there on the reader must behave exactly like a fresh reader with the new values on
+/// the rest of the input (positions shifted). No model involved; name checks and expansion stay off
+/// (they carry state across events - C04's subject).
+#[derive(Clone, Debug, Serialize, Deserialize, PartialEq)]
+pub struct FlipCase {
+    pub input: B,
+    pub c1: u8,
+    pub c2: u8,
+    pub k: u8,
+    /// read through read_event_into over 3-byte pieces instead of the borrowing reader
+    pub buffered: bool,
+}
+
+const FLIP_MASK: u8 = TRIM_START | TRIM_END | CHECK_COMMENTS | TRIM_NAMES;
+
+pub fn check_flip(c: &FlipCase) -> Verdict {
+    let data = &c.input.0;
+    if refxml::is_utf16_like(data) {
+        return Verdict::excluded("utf16-signature");
+    }
+    let (c1, c2) = ((c.c1 & FLIP_MASK) | ALLOW_UNMATCHED, (c.c2 & FLIP_MASK) | ALLOW_UNMATCHED);
+    let k = c.k as usize;
+    // run A: one reader, switches flipped after k calls
+    let mut a: Vec<Rec> = vec![];
+    {
+        let bound = call_bound(data.len()) + EXTRA_CALLS;
+        macro_rules! pump {
+            ($r:ident, $read:expr) => {{
+                apply_cfg($r.config_mut(), c1);
+                let mut extra = 0;
+                for i in 0..bound {
+                    if i == k {
+                        apply_cfg($r.config_mut(), c2);
+                    }
+                    let e = $read;
+                    let ev = ev_of(&e);
+                    drop(e);
+                    let done = matches!(ev, Ev::Eof) || ev.is_fatal();
+                    a.push(Rec { ev, pos: $r.buffer_position(), err_pos: $r.error_position() });
+                    if done || extra > 0 {
+                        extra += 1;
+                        if extra > EXTRA_CALLS {
+                            break;
+                        }
+                    }
+                }
+            }};
+        }
+        if c.buffered {
+            let cuts = crate::props::c02::normalise_cuts(data, &crate::sources::cuts_fixed(3, data.len()));
+            let mut r = quick_xml::Reader::from_reader(crate::sources::ChunkedBufRead::new(data, cuts));
+            let mut buf = Vec::new();
+            pump!(r, {
+                buf.clear();
+                r.read_event_into(&mut buf)
+            });
+        } else {
+            let mut r = quick_xml::Reader::from_reader(&data[..]);
+            pump!(r, r.read_event());
+        }
+    }
+    if k == 0 || a.len() <= k || matches!(a[k - 1].ev, Ev::Eof) || a[k - 1].ev.is_fatal() {
+        return Verdict::pass(false).class("flip-after-the-end");
+    }
+    let p = a[k - 1].pos as usize;
+    let bom_len = if data.starts_with(&refxml::UTF8_BOM) { 3 } else { 0 };
+    let rest = &data[(p + bom_len).min(data.len())..];
+    if rest.starts_with(&refxml::UTF8_BOM) || refxml::is_utf16_like(rest) {
+        return Verdict::excluded("rest-starts-with-a-signature");
+    }
+    let fresh = read_slice(rest, c2);
+    let tail = &a[k..];
+    for (i, f) in fresh.iter().enumerate() {
+        let want_pos = f.pos + p as u64;
+        match tail.get(i) {
+            Some(t) if t.ev == f.ev && t.pos == want_pos && (!f.ev.is_err() || t.err_pos == f.err_pos + p as u64) => {}
+            other => {
+                return Verdict::fail(format!(
+                    "after {} calls under {} the switches were set to {}; call {} then returned {:?}, a fresh reader with these switches on the rest of the input (from offset {}) returns {:?}@{} (error position {}) | {} source | input {:?} | whole run: {}",
+                    k, cfg_show(c1), cfg_show(c2), k + i, other, p, f.ev, want_pos, f.err_pos + p as u64, if c.buffered { "buffered" } else { "slice" }, B::show(data), show_recs(&a)
+                ))
+            }
+        }
+    }
+    Verdict::pass(c1 != c2 && fresh.len() > 1 + EXTRA_CALLS).class("flip-mid-stream")
+}
+
 fn replay(_stage: &str, case: &Value) -> Result<Verdict, String> {
+    if case.get("c2").is_some() {
+        let c: FlipCase = serde_json::from_value(case.clone()).map_err(|e| e.to_string())?;
+        return Ok(check_flip(&c));
+    }
     let c: Case = serde_json::from_value(case.clone()).map_err(|e| e.to_string())?;
     Ok(check(&c))
 }
